@@ -36,7 +36,8 @@ var leafSrc = map[string][]string{
 
 type leafSpec struct{ kind, enc, disp string }
 
-// leafCatalogue builds every leaf once with pcore's own constructors and records what the real codecs print
+// leafCatalogue: the serialization string of every entry is its (canonical) source text — that is the specification the
+// codecs are held to; only String() (not part of this property) is taken from the implementation
 func leafCatalogue() []leafSpec {
 	b := &builder{c: px.CurrentContext(), memo: map[*node]px.Value{}, types: map[string]px.Value{}}
 	var out []leafSpec
@@ -45,7 +46,7 @@ func leafCatalogue() []leafSpec {
 			func() {
 				defer func() { _ = recover() }()
 				v := b.leaf(k, src)
-				out = append(out, leafSpec{k, v.(px.SerializeAsString).SerializationString(), v.String()})
+				out = append(out, leafSpec{k, src, v.String()})
 			}()
 		}
 	}
@@ -199,15 +200,49 @@ func (g *vgen) hash(depth int, key bool) gv {
 	return gv{sx.T("h", xs...), abs, unkeyed}
 }
 
+// hardKey: some hash has a non-string key that is a float or a container; with rich_data=false and a consumer without
+// complex keys the serializer prints such a key with String(), which the model does not cover (floats in decimal,
+// container formatting): those matrix cells are evaluated on the implementation only ('@' lines)
+func hardKey(n *node, seen map[*node]bool) bool {
+	if seen[n] {
+		return false
+	}
+	seen[n] = true
+	if n.kind == "h" {
+		for i := 0; i < len(n.kids); i += 2 {
+			if k := n.kids[i].kind; k == "f" || k == "a" || k == "h" {
+				return true
+			}
+		}
+	}
+	for _, k := range n.kids {
+		if hardKey(k, seen) {
+			return true
+		}
+	}
+	return false
+}
+
 // the whole option x capability matrix for one value
 func emitMatrix(g *core.G, val string) {
+	hard := false
+	if xs, err := sx.Parse(val); err == nil && len(xs) == 1 {
+		func() {
+			defer func() { _ = recover() }()
+			hard = hardKey(parse(xs[0], map[int64]*node{}, map[int64]bool{}), map[*node]bool{})
+		}()
+	}
 	for _, rich := range []bool{true, false} {
 		for _, lref := range []bool{true, false} {
 			for dedup := 0; dedup <= 2; dedup++ {
 				for _, bin := range []bool{true, false} {
 					for _, cplx := range []bool{true, false} {
 						for _, thr := range []int{0, 1, 20, 1000000} {
-							g.Emit(fmt.Sprintf("ser (o %s %s %d) (c %s %s %d) %s", sx.B(rich), sx.B(lref), dedup, sx.B(bin), sx.B(cplx), thr, val))
+							at := ""
+							if hard && !rich && !cplx {
+								at = "@"
+							}
+							g.Emit(fmt.Sprintf("%sser (o %s %s %d) (c %s %s %d) %s", at, sx.B(rich), sx.B(lref), dedup, sx.B(bin), sx.B(cplx), thr, val))
 						}
 					}
 				}
